@@ -442,6 +442,9 @@ func proofToPath(root *felt.Felt, keyBits *BitArray, proof *ProofNodeSet, nodes 
 		if !ok {
 			return nil, nil, fmt.Errorf("expected binary node as child, got: %T", child)
 		}
+		if got := binary.Hash(crypto.Pedersen); !got.Equal(edge.Child) {
+			return nil, nil, fmt.Errorf("proof node hash mismatch, expected hash: %s, got hash: %s", edge.Child.String(), got.String())
+		}
 		sn.node.LeftHash = binary.LeftHash
 		sn.node.RightHash = binary.RightHash
 
@@ -477,6 +480,12 @@ func buildPath(
 	proofNode, ok := proof.Get(*nodeHash)
 	if !ok { // non-existent proof node
 		return emptyBitArray, nil, nil
+	}
+
+	// The node set is untrusted input: the node must really hash to the key it is filed under.
+	// (The single-element and empty-range paths never recompute the root, so this is their only check.)
+	if got := proofNode.Hash(crypto.Pedersen); !got.Equal(nodeHash) {
+		return nil, nil, fmt.Errorf("proof node hash mismatch, expected hash: %s, got hash: %s", nodeHash.String(), got.String())
 	}
 
 	switch pn := proofNode.(type) {
